@@ -309,7 +309,8 @@ def run_core(ctx, opts=("d",), force=False):
                 oi["emit"] = mres.get(("emit", "%s/%s/%d%d" % (gid, o, 0 if B.OPTSETS[o]["noast"] else 1, 1 if B.OPTSETS[o]["inline"] else 0)))
                 sm = mres.get(("semit", "%s/%s/%d%d" % (gid, o, 0 if B.OPTSETS[o]["noast"] else 1, 1 if B.OPTSETS[o]["inline"] else 0)))
                 if sm is not None and sm.startswith("deep="):
-                    oi["deep"], oi["semit"] = sm[5] == "1", sm[7:]
+                    oi["deep"], oi["semit"] = sm[5] in "1357", sm[7:]
+                    oi["alt2"], oi["closed"] = sm[5] in "2367", sm[5] in "4567"
                 if o == "d":
                     oi["opt"] = mres.get(("opt", "%s/d" % gid))
                     oi["link"] = mres.get(("link", "%s/d" % gid))
